@@ -408,6 +408,43 @@ func uploadDriver(a *Args) {
 		res.Extra["ref_len_"+h.Name] = len(fs.acked[0])
 	}
 	n := 0
+	// boundary sweep: serialised lengths around the 4096-byte replay buffer, a failure after the
+	// whole body was read (so the retry must either replay everything or be refused), then an ack
+	if base, ok := refs["edgeA"]; ok {
+		for target := 4088; target <= 4108; target++ {
+			b := 3950 + (target - len(base))
+			if b < 256 || b > 4095 {
+				continue
+			}
+			h := handlerScript{fmt.Sprintf("sweep%d", target), []int{b}, false}
+			hx.Reset("upload-ref-"+h.Name, "upload-ref")
+			fs := newFaultServer(nil, nil)
+			ok, blocked, _ := runForwarder(fs.url(), h, "ref-"+h.Name, nil)
+			hx.Emit("CloseDone", "ok", ok, "blocked", blocked)
+			fs.close()
+			if !ok || len(fs.acked) != 1 {
+				continue
+			}
+			ref := fs.acked[0]
+			for _, kind := range []string{"5xx-close", "reset", "5xx-keep"} {
+				for _, script := range [][]upStep{{{kind, "end"}, {"ack", "end"}}, {{kind, "end"}, {kind, "end"}, {"ack", "end"}}} {
+					n++
+					var shape []string
+					for _, st := range script {
+						shape = append(shape, st.Kind+"@"+st.Pos)
+					}
+					sig := fmt.Sprintf("upload:[%s]:len%d", strings.Join(shape, ","), len(ref))
+					hx.Reset(fmt.Sprintf("upload-%d", n), sig)
+					fs := newFaultServer(script, ref)
+					ok, blocked, _ := runForwarder(fs.url(), h, fmt.Sprintf("req-%d", n), nil)
+					hx.Emit("CloseDone", "ok", ok, "blocked", blocked)
+					time.Sleep(3 * time.Millisecond)
+					fs.close()
+					res.Case(fmt.Sprintf("%s:len%d", strings.Join(shape, ","), len(ref)), map[string]interface{}{"script": shape, "serialised_len": len(ref)})
+				}
+			}
+		}
+	}
 	for _, sc := range cases.Scripts {
 		var script []upStep
 		var shape []string
